@@ -331,6 +331,13 @@ class Interp:
         if isinstance(st, ast.AugAssign):
             cur = self.eval(st.target, env, m)
             v = self.eval(st.value, env, m)
+            if isinstance(cur, list) and isinstance(st.op, ast.Add):
+                # list += iterable extends the object in place (every other name bound to it sees the change) and rebinds the same object
+                if not isinstance(v, (list, tuple, set, dict, str)):
+                    raise EvalRaise("TypeError", f"'{type(v).__name__}' object is not iterable")
+                cur.extend(list(v))  # list(v) first: `x += x` doubles x
+                self.assign(st.target, cur, env, m)
+                return
             self.assign(st.target, self.binop(st.op, cur, v, st), env, m)
             return
         if isinstance(st, ast.Return):
